@@ -241,6 +241,14 @@ ChargeEntersSquared ==
             v0 == ValAt(k, With(e, "C", IF k = "ext" THEN QZero ELSE dh.C))
         IN  /\ vm = v
             /\ (IsRQ(v0) /\ IsRQ(v1)) => v0.q = QMul(QMul(dh.z, dh.z), v1.q)
+(* an uncharged species feels no Coulomb term: limiting and Davies give exactly 0, the extended  *)
+(* law keeps only its linear term C I / I0                                                      *)
+NeutralSpecies ==
+    (IsLaw /\ QIsSquare(Norm(QDiv(dh.IS, dh.I0)))) =>       \* where TLC can evaluate the square root
+             LET e == With(PointEnv(dh), "z", QZero)
+                 l == ValAt("lim", e)   d == ValAt("dav", e)   x == ValAt("ext", e)
+             IN  /\ IsRQ(l) /\ l.q = QZero /\ IsRQ(d) /\ d.q = QZero
+                 /\ IsRQ(x) /\ x.q = Norm(QMul(dh.C, QDiv(dh.IS, dh.I0)))
 (* a perfect-square ionic strength makes every law rational (so the exact branch is not vacuous) *)
 SquareIsRational ==
     (IsLaw /\ QIsSquare(Norm(QDiv(dh.IS, dh.I0)))) => IsRQ(PointValue(dh))
@@ -275,15 +283,33 @@ Keys == [i \in 1..Len(ions) |-> FormulasOf(ions[i].z)[Rank(i)]]
 
 (* input forms (configurations): how the same composition is handed to the code.  A molality *)
 (* of n pico-molal has magnitude n * 10^exp10 in the named unit (mmol/kg = 10^-3 mol/kg ...). *)
-F(form, unit, e, unit2, e2) == [form |-> form, unit |-> unit, exp10 |-> e, unit2 |-> unit2, exp10b |-> e2]
-ListForms == << F("list",   "none",    -12, "none",   -12),
-                F("qarray", "mol/kg",  -12, "mol/kg", -12),
-                F("qarray", "mmol/kg", -9,  "mmol/kg", -9),
-                F("qlist",  "mol/g",   -15, "mol/g",  -15),
-                F("qmixed", "mmol/kg", -9,  "mol/kg", -12) >>     \* odd entries unit, even entries unit2
-DictForms == << F("dict",   "none",    -12, "none",   -12),
-                F("qdict",  "mol/kg",  -12, "mol/kg", -12),
-                F("qdict",  "umol/kg", -6,  "mmol/kg", -9) >>
+(* For the mapping forms the `substances` argument is a further dimension: not given (charges   *)
+(* are read from the keys of the mapping), a string of keys, or a mapping key -> Substance; the   *)
+(* registry may list the species in ANY order and may contain further species - charges are      *)
+(* looked up BY KEY, so none of this may change the result.                                       *)
+Rev(q) == [i \in 1..Len(q) |-> q[Len(q) + 1 - i]]
+Rot(q) == IF Len(q) <= 1 THEN q ELSE Tail(q) \o <<Head(q)>>
+NoSubs == [kind |-> "none", keys |-> <<>>]
+Subs(kind, keys) == [kind |-> kind, keys |-> keys]
+F(form, unit, e, unit2, e2, subs) ==
+    [form |-> form, unit |-> unit, exp10 |-> e, unit2 |-> unit2, exp10b |-> e2, subs |-> subs]
+ListForms == << F("list",   "none",    -12, "none",   -12, NoSubs),
+                F("qarray", "mol/kg",  -12, "mol/kg", -12, NoSubs),
+                F("qarray", "mmol/kg", -9,  "mmol/kg", -9, NoSubs),
+                F("qlist",  "mol/g",   -15, "mol/g",  -15, NoSubs),
+                F("qmixed", "mmol/kg", -9,  "mol/kg", -12, NoSubs) >>     \* odd entries unit, even entries unit2
+DictForms == << F("dict",   "none",    -12, "none",   -12, NoSubs),
+                F("dict",   "none",    -12, "none",   -12, Subs("str", Rev(Keys))),
+                F("dict",   "none",    -12, "none",   -12, Subs("dict", Rot(Keys) \o <<"He">>)),
+                F("qdict",  "mol/kg",  -12, "mol/kg", -12, NoSubs),
+                F("qdict",  "umol/kg", -6,  "mmol/kg", -9, Subs("dict", Rev(Keys))),
+                F("qdict",  "mol/kg",  -12, "mol/kg", -12, Subs("str", <<"Ar">> \o Rot(Keys))) >>
+(* the charge a key denotes (the table above read backwards) *)
+ZOfKey(k) == CHOOSE z \in -4..4 : \E i \in 1..4 : FormulasOf(z)[i] = k
+KeysDenoteCharges ==
+    (dh = NoDH /\ KeysOK) =>
+        /\ \A i \in 1..Len(ions) : ZOfKey(Keys[i]) = ions[i].z
+        /\ \A i, j \in 1..Len(ions) : i # j => Keys[i] # Keys[j]
 FormsFor == IF KeysOK THEN ListForms \o DictForms ELSE ListForms
 
 IonClass == IF TwiceI(ions) = <<>> THEN "zero"
@@ -306,31 +332,53 @@ ABRtol == <<2, 100000>>        \* A, B: covers the CODATA vintage of either code
 (* call configurations.  Every argument is handed over as  value * mul  in the named unit     *)
 (* ("none" = plain number); all configurations of one point denote the same physical input.   *)
 Arg(unit, n, d) == [unit |-> unit, mul |-> <<n, d>>]
+(* `implicit`: arguments that equal their documented default (I0 = 1, C = 0 for the extended   *)
+(* law, C = -0.3 for Davies, b0 = 1 mol/kg) are NOT passed; otherwise they are passed.  With     *)
+(* quantities I0 has no usable default (it must carry the unit of IS).  See OmitSeq.             *)
+LM(mode, be, impl, isu, isn, i0u, au, an, bu) ==
+    [mode |-> mode, backend |-> be, consts |-> FALSE, implicit |-> impl,
+     IS |-> Arg(isu, isn, 1), I0 |-> Arg(i0u, 1, 1), a |-> Arg(au, an, 1), B |-> Arg(bu, 1, 1)]
 LawModes ==
-    << [mode |-> "plain", backend |-> "default", consts |-> FALSE,
-        IS |-> Arg("none", 1, 1), I0 |-> Arg("none", 1, 1), a |-> Arg("none", 1, 1), B |-> Arg("none", 1, 1)],
-       [mode |-> "plain", backend |-> "math", consts |-> FALSE,
-        IS |-> Arg("none", 1, 1), I0 |-> Arg("none", 1, 1), a |-> Arg("none", 1, 1), B |-> Arg("none", 1, 1)],
-       [mode |-> "units", backend |-> "default", consts |-> FALSE,
-        IS |-> Arg("mol/kg", 1, 1), I0 |-> Arg("mol/kg", 1, 1), a |-> Arg("nm", 1, 1), B |-> Arg("1/nm", 1, 1)],
-       [mode |-> "scaled", backend |-> "default", consts |-> FALSE,
-        IS |-> Arg("mmol/kg", 1000, 1), I0 |-> Arg("mol/kg", 1, 1), a |-> Arg("angstrom", 10, 1), B |-> Arg("1/nm", 1, 1)] >>
+    << LM("plain",  "default", FALSE, "none", 1, "none", "none", 1, "none"),
+       LM("plain",  "math",    FALSE, "none", 1, "none", "none", 1, "none"),
+       LM("units",  "default", FALSE, "mol/kg", 1, "mol/kg", "nm", 1, "1/nm"),
+       LM("scaled", "default", FALSE, "mmol/kg", 1000, "mol/kg", "angstrom", 10, "1/nm"),
+       LM("plain",  "default", TRUE,  "none", 1, "none", "none", 1, "none"),
+       LM("units",  "default", TRUE,  "mol/kg", 1, "mol/kg", "nm", 1, "1/nm"),
+       LM("scaled", "default", TRUE,  "mmol/kg", 1000, "mol/kg", "angstrom", 10, "1/nm") >>
 (* A, B take `constants` and `units`: every accepted combination (constants object given / not) x  *)
 (* (units object given / not) x (inputs plain / default units / scaled units); without any of the  *)
 (* two objects the inputs are plain numbers, with either of them they are quantities              *)
-ABM(mode, c, uo, tu, tn, td, ru, rn, rd, bu) ==
-    [mode |-> mode, backend |-> "default", consts |-> c, uobj |-> uo,
+ABM(mode, c, uo, impl, tu, tn, td, ru, rn, rd, bu) ==
+    [mode |-> mode, backend |-> "default", consts |-> c, uobj |-> uo, implicit |-> impl,
      T |-> Arg(tu, tn, td), rho |-> Arg(ru, rn, rd), b0 |-> Arg(bu, 1, 1)]
 ABModes ==
-    << ABM("plain",  FALSE, FALSE, "none", 1, 1, "none", 1, 1, "none"),
-       ABM("units",  FALSE, TRUE,  "K", 1, 1, "kg/m3", 1, 1, "mol/kg"),
-       ABM("scaled", FALSE, TRUE,  "mK", 1000, 1, "g/cm3", 1, 1000, "mol/kg"),
-       ABM("units",  TRUE,  TRUE,  "K", 1, 1, "kg/m3", 1, 1, "mol/kg"),
-       ABM("scaled", TRUE,  TRUE,  "mK", 1000, 1, "g/cm3", 1, 1000, "mmol/g"),
-       ABM("units",  TRUE,  FALSE, "K", 1, 1, "kg/m3", 1, 1, "mol/kg"),
-       ABM("scaled", TRUE,  FALSE, "mK", 1000, 1, "g/cm3", 1, 1000, "mmol/g") >>
-ProdModes == << [mode |-> "plain", backend |-> "default"], [mode |-> "plain", backend |-> "math"],
-                [mode |-> "class", backend |-> "default"] >>
+    << ABM("plain",  FALSE, FALSE, TRUE,  "none", 1, 1, "none", 1, 1, "none"),
+       ABM("plain",  FALSE, FALSE, FALSE, "none", 1, 1, "none", 1, 1, "none"),
+       ABM("units",  FALSE, TRUE,  FALSE, "K", 1, 1, "kg/m3", 1, 1, "mol/kg"),
+       ABM("scaled", FALSE, TRUE,  FALSE, "mK", 1000, 1, "g/cm3", 1, 1000, "mol/kg"),
+       ABM("units",  TRUE,  TRUE,  FALSE, "K", 1, 1, "kg/m3", 1, 1, "mol/kg"),
+       ABM("scaled", TRUE,  TRUE,  FALSE, "mK", 1000, 1, "g/cm3", 1, 1000, "mmol/g"),
+       ABM("units",  TRUE,  FALSE, FALSE, "K", 1, 1, "kg/m3", 1, 1, "mol/kg"),
+       ABM("scaled", TRUE,  FALSE, FALSE, "mK", 1000, 1, "g/cm3", 1, 1000, "mmol/g"),
+       \* the reference molality left at its default: it is 1 mol/kg whenever a units object is passed
+       ABM("units",  FALSE, TRUE,  TRUE,  "K", 1, 1, "kg/m3", 1, 1, "mol/kg"),
+       ABM("scaled", FALSE, TRUE,  TRUE,  "mK", 1000, 1, "g/cm3", 1, 1000, "mol/kg"),
+       ABM("units",  TRUE,  TRUE,  TRUE,  "K", 1, 1, "kg/m3", 1, 1, "mol/kg"),
+       ABM("scaled", TRUE,  TRUE,  TRUE,  "mK", 1000, 1, "g/cm3", 1, 1000, "mol/kg") >>
+PM(mode, be, impl) == [mode |-> mode, backend |-> be, implicit |-> impl]
+ProdModes == << PM("plain", "default", FALSE), PM("plain", "math", FALSE), PM("class", "default", FALSE),
+                PM("plain", "default", TRUE), PM("class", "default", TRUE) >>
+(* documented defaults and the arguments a configuration leaves out *)
+DefaultC(kind) == IF kind \in {"dav", "dap"} THEN <<-3, 10>> ELSE QZero
+If(c, name) == IF c THEN <<name>> ELSE <<>>
+OmitSeq(p, m) ==
+    IF ~m.implicit THEN <<>>
+    ELSE IF p.kind \in LawKinds
+    THEN If(m.mode = "plain" /\ p.I0 = QOne, "I0") \o If(p.kind \in {"ext", "dav"} /\ p.C = DefaultC(p.kind), "C")
+    ELSE IF p.kind \in ABKinds THEN If(p.b0 = QOne /\ (m.mode = "plain" \/ m.uobj), "b0")
+    ELSE If(p.kind \in {"eap", "dap"} /\ p.C = DefaultC(p.kind), "C")
+ModesOfKind(kind) == IF kind \in LawKinds THEN LawModes ELSE IF kind \in ABKinds THEN ABModes ELSE ProdModes
 (* molalities with the point's ionic strength, in the proportions of the stoichiometry       *)
 (* (only for all-positive stoichiometries): c_i = nu_i * IS / (1/2 sum nu z^2)               *)
 ProdConc(p) ==
@@ -341,8 +389,8 @@ ProdConc(p) ==
 DHCase ==
     LET v == PointValue(dh) IN
     [ in  |-> [kind |-> dh.kind, pt |-> dh,
-               modes |-> IF dh.kind \in LawKinds THEN LawModes
-                         ELSE IF dh.kind \in ABKinds THEN ABModes ELSE ProdModes,
+               modes |-> ModesOfKind(dh.kind),
+               omits |-> [i \in 1..Len(ModesOfKind(dh.kind)) |-> OmitSeq(dh, ModesOfKind(dh.kind)[i])],
                conc |-> IF dh.kind \in ProdKinds THEN ProdConc(dh) ELSE <<>>,
                size_exp10 |-> -12],
       exp |-> [st |-> v.st, q |-> v.q,
